@@ -50,17 +50,23 @@ def nextVersion (oldv rev : Int) : Int × Bool :=
   else if rev.natAbs ≤ oldv.natAbs then (1, false)
   else (rev, true)
 
+/-- one decimal digit more -/
+def digitStep (acc : Option Nat) (c : UInt8) : Option Nat :=
+  match acc with
+  | none => none
+  | some n => if 48 ≤ c.toNat ∧ c.toNat ≤ 57 then some (n * 10 + (c.toNat - 48)) else none
+
+/-- a non-empty string of decimal digits -/
+def digitsVal (ds : Bytes) : Option Nat := if ds.isEmpty then none else ds.foldl digitStep (some 0)
+
 /-- decimal integer as Go's strconv.Atoi reads it (optional sign, digits only), within int64 -/
 def parseInt (b : Bytes) : Option Int :=
-  let digits (ds : Bytes) : Option Nat :=
-    if ds.isEmpty then none else
-    ds.foldl (fun acc c => match acc with
-      | none => none
-      | some n => if 48 ≤ c.toNat ∧ c.toNat ≤ 57 then some (n * 10 + (c.toNat - 48)) else none) (some 0)
   let r : Option Int := match b with
-    | 43 :: ds => (digits ds).map Int.ofNat          -- '+'
-    | 45 :: ds => (digits ds).map (fun n => - Int.ofNat n)   -- '-'
-    | ds => (digits ds).map Int.ofNat
+    | [] => none
+    | c :: ds =>
+      if c = 43 then (digitsVal ds).map Int.ofNat                       -- '+'
+      else if c = 45 then (digitsVal ds).map (fun n => - Int.ofNat n)   -- '-'
+      else (digitsVal (c :: ds)).map Int.ofNat
   match r with
   | some v => if -9223372036854775808 ≤ v ∧ v ≤ 9223372036854775807 then some v else none
   | none => none
